@@ -85,9 +85,11 @@ def run(ctx):
         if inv in pc.C09_DIAG:
             ctx.note(f"MODEL-DRIFT: {inv} not followed on {len(ms)} runs (mechanism differs; verdict is the bracket)")
             continue
-        if inv in ("ChargeGrid", "ChargeRows"):
-            # the grid clauses belong to C10; here only report rows that fail although the grid is right
-            continue
+        if inv == "ChargeGrid":
+            continue      # the grid clause belongs to C10
+        if inv == "ChargeRows":
+            # the printed charge table: reported here when it fails although the computed grid is right (C10 otherwise)
+            ms = [m for m in ms if m not in viol.get("ChargeGrid", [])]
         for m in ms[:3]:
             ctx.violation(f"trace:{inv}:{m['input']}", f"{inv} violated on {m}", m)
     ctx.sample({"run": meta[0]})
